@@ -52,7 +52,8 @@ with stmt :=
 | SExpr (e:expr)
 | SContinue
 | SAssert (e:expr)
-| SAppend (x:string) (e:expr).
+| SAppend (x:string) (e:expr)
+| SBreak.
 
 Inductive ltype := TStr | TBool | TInt | TFloat (places:Z) | TEnum (e:string).
 
@@ -251,7 +252,7 @@ Definition threshold_lookup (t:threshold) (key:option pv) : res pv :=
       end
   end.
 
-Inductive signal := SigNone | SigReturn (v:pv) | SigContinue.
+Inductive signal := SigNone | SigReturn (v:pv) | SigContinue | SigBreak.
 Definition env := list (string * pv).
 
 Section Eval.
@@ -461,9 +462,9 @@ with exec (fuel:nat) (l:list stmt) (r:env) {struct fuel} : res (env * signal) :=
               res0 <- fold_left (fun acc it =>
                                    a <- acc ;;
                                    match snd a with
-                                   | SigReturn _ => RVal a
+                                   | SigReturn _ | SigBreak => RVal a
                                    | _ => sg <- exec n body (sset x it (fst a)) ;;
-                                          RVal (fst sg, match snd sg with SigReturn v => SigReturn v | _ => SigNone end)
+                                          RVal (fst sg, match snd sg with SigReturn v => SigReturn v | SigBreak => SigBreak | _ => SigNone end)
                                    end)
                                 items (RVal (r, SigNone)) ;;
               match snd res0 with SigReturn v => RVal res0 | _ => continue_with (fst res0) end
@@ -471,9 +472,9 @@ with exec (fuel:nat) (l:list stmt) (r:env) {struct fuel} : res (env * signal) :=
               res0 <- fold_left (fun acc ch =>
                                    a <- acc ;;
                                    match snd a with
-                                   | SigReturn _ => RVal a
+                                   | SigReturn _ | SigBreak => RVal a
                                    | _ => sg <- exec n body (sset x (PStr (String ch "")) (fst a)) ;;
-                                          RVal (fst sg, match snd sg with SigReturn v => SigReturn v | _ => SigNone end)
+                                          RVal (fst sg, match snd sg with SigReturn v => SigReturn v | SigBreak => SigBreak | _ => SigNone end)
                                    end)
                                 (list_ascii_of_string str) (RVal (r, SigNone)) ;;
               match snd res0 with SigReturn v => RVal res0 | _ => continue_with (fst res0) end
@@ -482,6 +483,7 @@ with exec (fuel:nat) (l:list stmt) (r:env) {struct fuel} : res (env * signal) :=
       | SReturn e => v <- eval n e r ;; RVal (r, SigReturn v)
       | SExpr e => _ <- eval n e r ;; continue_with r
       | SContinue => RVal (r, SigContinue)
+      | SBreak => RVal (r, SigBreak)
       | SAssert e => v <- eval n e r ;; if truthy v then continue_with r else RCrash CAssert
       | SAppend x e =>
           match slookup x r with
